@@ -247,6 +247,125 @@ func checkC17(c *core.Ctx) {
 	r5 := c.Rule("R17.5", "D", "per-layer flows: source before destination")
 	r6 := c.Rule("R17.6", "D", "private port slices and exported port numbers come from the same bytes")
 
+	// ---- R17.7 / R17.8
+	r7 := c.Rule("R17.7", "T", "per-layer flow accessors compute the flow from the layer's current fields on every call (no stored flow is returned)")
+	r8 := c.Rule("R17.8", "T", "endpoint and flow constructors write no package-level variable")
+	{
+		nAcc := 0
+		for _, fn := range pkgFunctions(p, "layers") {
+			if fn.Signature.Recv() == nil || fn.Signature.Results().Len() != 1 || !core.NamedIs(fn.Signature.Results().At(0).Type(), "Flow") || !strings.HasSuffix(fn.Name(), "Flow") {
+				continue
+			}
+			nAcc++
+			key := core.FnKey(fn) + "/returns"
+			bad := ""
+			for _, ret := range core.Returns(fn) {
+				v := core.RetOperand(ret, 0)
+				var check func(v ssa.Value, d int)
+				check = func(v ssa.Value, d int) {
+					if d > 4 || bad != "" {
+						return
+					}
+					switch x := v.(type) {
+					case *ssa.Call:
+						// NewFlow(...) or another accessor / constructor
+					case *ssa.Phi:
+						for _, e := range x.Edges {
+							check(e, d+1)
+						}
+					case *ssa.UnOp:
+						if pth, base := core.FieldPath(x.X); pth != "" && x.Op == token.MUL {
+							if _, isParam := base.(*ssa.Parameter); isParam {
+								bad = "the flow stored in field " + pth
+							}
+						}
+					case *ssa.Field:
+						bad = "a stored flow"
+					}
+				}
+				check(v, 0)
+			}
+			r7.Check(bad == "", key, p.Pos(fn.Pos()), "every return is a freshly built flow", "returns "+bad+" instead of a flow built from the layer's current address fields: after the layer object is decoded into again the accessor can report the previous packet's flow")
+		}
+		if nAcc < 8 {
+			r7.Missing("layers/flow accessors", fmt.Sprintf("only %d flow accessors found", nAcc))
+		}
+		// constructors: exported functions returning Endpoint or Flow, and what they call inside the module
+		var seeds []*ssa.Function
+		for _, pk := range []string{"", "layers"} {
+			for _, fn := range pkgFunctions(p, pk) {
+				if pk == "" && core.FnPkg(fn).Path() != core.Mod {
+					continue
+				}
+				if fn.Signature.Recv() != nil || fn.Signature.Results().Len() != 1 || fn.Parent() != nil {
+					continue
+				}
+				rt := fn.Signature.Results().At(0).Type()
+				if core.NamedIs(rt, "Endpoint") || core.NamedIs(rt, "Flow") {
+					seeds = append(seeds, fn)
+				}
+			}
+		}
+		for _, fn := range core.SortedFns(p.AllFns) {
+			if core.FnPkg(fn) != nil && core.FnPkg(fn).Path() == core.Mod && fn.Signature.Recv() == nil && fn.Parent() == nil && len(fn.Blocks) > 0 && fn.Signature.Results().Len() == 1 {
+				rt := fn.Signature.Results().At(0).Type()
+				if core.NamedIs(rt, "Endpoint") || core.NamedIs(rt, "Flow") {
+					seeds = append(seeds, fn)
+				}
+			}
+		}
+		reach := p.Reach(p.CG(false), seeds)
+		nC := 0
+		for _, fn := range core.SortedFns(reach) {
+			if !p.InModule(fn) || len(fn.Blocks) == 0 || strings.HasSuffix(p.Pos(fn.Pos()), "_test.go") {
+				continue
+			}
+			nC++
+			globalRoot := func(v ssa.Value) *ssa.Global {
+				for i := 0; i < 8; i++ {
+					switch x := v.(type) {
+					case *ssa.Global:
+						return x
+					case *ssa.Slice:
+						v = x.X
+					case *ssa.IndexAddr:
+						v = x.X
+					case *ssa.FieldAddr:
+						v = x.X
+					default:
+						return nil
+					}
+				}
+				return nil
+			}
+			k := 0
+			core.Instrs(fn, func(ins ssa.Instruction) {
+				var g *ssa.Global
+				switch x := ins.(type) {
+				case *ssa.Store:
+					g = globalRoot(x.Addr)
+				case *ssa.Call:
+					if nm, cc := core.BuiltinCall(x); nm == "copy" {
+						g = globalRoot(cc.Args[0])
+					} else if f := x.Call.StaticCallee(); f != nil && f.Pkg != nil && f.Pkg.Pkg.Path() == "encoding/binary" && strings.HasPrefix(f.Name(), "Put") && len(x.Call.Args) >= 2 {
+						g = globalRoot(x.Call.Args[1])
+					}
+				}
+				if g == nil {
+					return
+				}
+				k++
+				r8.Violate(fmt.Sprintf("%s/writes-global:%s#%d", core.FnKey(fn), g.Name(), k), p.InstrPos(ins), "a constructor of endpoint/flow values writes package-level variable "+g.Name()+": two goroutines building values at the same time get each other's bytes (the value no longer equals the one decoding gives for the same port/address)", nil)
+			})
+		}
+		c.Counts["constructor_reach"] = nC
+		if nC < 10 {
+			r8.Missing("constructors", fmt.Sprintf("only %d functions reachable from endpoint/flow constructors", nC))
+		} else {
+			r8.OK("constructors/scan", "", fmt.Sprintf("%d functions reachable from endpoint/flow constructors scanned", nC))
+		}
+	}
+
 	// ---- R17.0
 	for _, name := range []string{"Endpoint", "Flow"} {
 		n := p.NamedType("", name)
